@@ -59,6 +59,37 @@ def inplace_pairs(prog, x):
         tg = [t for t in sorted(reachable_targets(shape)) if t != ()]
         t = rng.choice(tg)
         out.append(("reshape", lambda a: a.reshape(t), lambda a: a.reshape(t, inplace=True)))
+    if nd >= 1:
+        # alignment with a partner whose sectors overlap x's only partly, or not at all
+        from symmray.abelian_core import drop_misaligned_sectors
+
+        axs_al = rng.sample(range(nd), rng.randint(1, nd))
+        pseed = rng.getrandbits(40)
+        disjoint = rng.random() < 0.3
+
+        def al_partner(a):
+            import random as _r
+
+            r2 = _r.Random(pseed)
+            ib = [gen.conj_index(sr, a.indices[i]) for i in axs_al]
+            y_ = gen.make_array(sr, r2, prog.sym, ib, fermionic=ferm, kind=prog.kind, values=gen.Values(r2, "int", prog.dtype), label=771, sparsity=0.6 if not disjoint else 0.0, nphase=0, exotic=False)
+            if disjoint and y_.blocks:
+                # keep only sectors whose sub-sector does not occur in a
+                have = {tuple(s_[i] for i in axs_al) for s_ in a.blocks}
+                for s_ in [s_ for s_ in list(y_.blocks) if s_ in have][: max(0, len(y_.blocks) - 0)]:
+                    del y_.blocks[s_]
+            return y_
+
+        def al_out(a):
+            b = al_partner(a)
+            return drop_misaligned_sectors(a, b, tuple(axs_al), tuple(range(len(axs_al))))[0]
+
+        def al_in(a):
+            b = al_partner(a)
+            drop_misaligned_sectors(a, b, tuple(axs_al), tuple(range(len(axs_al))), inplace=True)
+            return a
+
+        out.append(("drop_misaligned_sectors", al_out, al_in))
     fused = [i for i, ix in enumerate(x.indices) if ix.subinfo is not None]
     if fused:
         axf = rng.choice(fused)
